@@ -17,7 +17,7 @@ RULE = ("one evaluation = one configuration round trip (field subset x generated
 ASSUMPTIONS = ["process death only (os._exit): power loss / fsync ordering is not observable here",
                "the untyped key=value format is compared as strings; values there contain no comment characters, '=' only inside, and no surrounding blanks",
                "text values are valid unicode without control characters (key=value) / arbitrary unicode (JSON)"]
-REQUIRED = ["roundtrips", "route:save-profile", "route:save-dest", "route:str-file", "never_used_profiles", "binary_fields",
+REQUIRED = ["read_before_save", "roundtrips", "route:save-profile", "route:save-dest", "route:str-file", "never_used_profiles", "binary_fields",
             "crash_children", "crash_died_inside", "crash_outcome:old", "crash_outcome:new"]
 TIMEOUT = {"quick": 900, "thorough": 7200}
 
@@ -135,6 +135,16 @@ def roundtrip(acc, r, subset, fmt, route, loadpath, used_before, tag):
     acc.count("binary_fields", nb)
     acc.seen("subset_sizes", str(len(subset)))
     acc.case(["rt", subset, fmt, route, loadpath, used_before, repr(sorted((k, canon(k, v)) for k, v in vals.items()))], nontrivial=nb > 0)
+    if r.random() < 0.5:
+        # what an application does with a configuration before it saves it: look at it. Reading changes nothing.
+        try:
+            ks = cfg.keys()
+            str(cfg)
+            ("phone" in cfg, cfg["phone"], [cfg[k_] for k_ in ks if k_ != "version"][:3], cfg.keys())
+            acc.count("read_before_save")
+        except Exception as e:  # noqa
+            acc.violation("read-before-save-raises:%s" % type(e).__name__, "reading a configuration object raised %r" % (e,), w)
+            return
     if used_before:
         # directory exists already (as after any earlier login: the key store lives there)
         os.makedirs(os.path.join(StorageTools.getStorageForProfile(profile)), exist_ok=True)
